@@ -17,4 +17,8 @@ def discover(files):
         picked.append((c, 0))
     for c in sorted(coords):                       # ordered: must NOT match
         picked.append((c, 1))
+    for c in sorted(coords, key=len):              # ties keep hash order: must match
+        picked.append((c, 2))
+    for c in sorted(coords, key=lambda x: (len(x), x)):   # total order: must NOT match
+        picked.append((c, 3))
     return picked
